@@ -360,8 +360,18 @@ def run(ctx):
     if not w or not any("self_closing" in x and "Not" in x for x in w):
         r.violate("foreign|self-closing", "in foreign content with_content is no longer !self_closing", ai.loc())
 
+    rule_pipeline(ctx, mir)
+
+    ctx.not_decided += ["correctness of the compiled program (prefix sharing, jumps, recovery points) against CSS semantics for all selector sets x documents: a behavioural equivalence out of reach of this technique",
+                        "the arithmetic of NthChild::has_index (value-level; e.g. sign handling for negative steps)"]
+    return ("Structural clauses only: validator/translator agreement over the selectors crate's Component, Combinator and NthType variants, the "
+            "negation-over-conjunction soundness condition (known finding), name case folding on both sides, stack/counter maintenance order, "
+            "the void/self-closing directive table and the three-stage matching pipeline with its recovery functions.")
+
+
+def rule_pipeline(ctx, mir, rid="R04.6"):
     # ------------------------------------------------------------------ R04.6
-    r = ctx.rule("R04.6", "matching pipeline: every start tag runs entry points, then the parent's jumps, then the active hereditary jumps; after an attribute bail-out in stage k the recovery resumes stage k and runs every later stage", "E-MIR call-sequence", floor=5)
+    r = ctx.rule(rid, "matching pipeline: every start tag runs entry points, then the parent's jumps, then the active hereditary jumps; after an attribute bail-out in stage k the recovery resumes stage k and runs every later stage", "E-MIR call-sequence", floor=5)
     STAGES = ["SelectorMatchingVm::exec_instr_set_with_attrs", "SelectorMatchingVm::exec_jumps_with_attrs", "SelectorMatchingVm::exec_hereditary_jumps_with_attrs"]
     def seq(fn):
         f = mir.fn(fn)
@@ -392,8 +402,3 @@ def run(ctx):
             if not ew.dominates(tb, bb):
                 r.violate("exec_without_attrs|pairing", "a bail-out is not paired with the stage that produced it", ew.loc())
 
-    ctx.not_decided += ["correctness of the compiled program (prefix sharing, jumps, recovery points) against CSS semantics for all selector sets x documents: a behavioural equivalence out of reach of this technique",
-                        "the arithmetic of NthChild::has_index (value-level; e.g. sign handling for negative steps)"]
-    return ("Structural clauses only: validator/translator agreement over the selectors crate's Component, Combinator and NthType variants, the "
-            "negation-over-conjunction soundness condition (known finding), name case folding on both sides, stack/counter maintenance order, "
-            "the void/self-closing directive table and the three-stage matching pipeline with its recovery functions.")
